@@ -104,4 +104,57 @@ def ethCallValuePrecompileQuery : List Step := [.privateNew, .evmAdd 2 (-7), .ev
 def ethCallSendToBankOther : List Step := [.privateNew, .evmAdd 6 (-4), .flush, .bankOther 6 4]
 def genesis : W := { storeT := fun a => if a ≤ 5 then 100 else 0, storeQ := fun a => if a ≤ 5 then 100 else 0 }
 
+/-! ### line protocol: the model's prediction for the harness's interleaving cases
+
+  The harness executes the block's Ethereum transaction twice from the same state — alone, and with one query run to completion
+  at a yield point — and reports whether anything the block commits differs.  The model answers the same question for the
+  corresponding programs and schedule. -/
+
+/-- what the query kinds of the harness do to the shared pointer, the StateDBs and the bank (amounts are immaterial, accounts are
+    distinct from the block transaction's unless the real query touches the same account) -/
+def queryProgram (kind : String) (q : Int) : List Step :=
+  match kind with
+  | "bank-balance" => []
+  | "ethcall-view" | "estimate-gas" => [.privateNew, .evmAdd 9 1]
+  | "ethcall-value-precompile-query" => [.privateNew, .evmAdd 6 (-q), .evmAdd 8 q, .flush]
+  | "ethcall-funtoken-sendtobank" => [.privateNew, .evmAdd 6 (-q), .flush, .bankOther 6 q]
+  | "ethcall-bank-precompile" => [.privateNew, .flush, .bankAdd 6 (-q), .bankAdd 4 q]
+  | "simulate-ethtx" => [.useOrPublish, .evmAdd 6 (-q), .evmAdd 5 q, .commit, .clear]
+  | "simulate-ethtx-bad" => [.useOrPublish, .evmAdd 7 1, .commit, .clear]
+  | "simulate-convert" => [.useOrPublish, .bankOther 6 (-q), .evmAdd 9 q, .commit, .clear]
+  | "simulate-convert-bad" => []          -- the mapping lookup fails before any StateDB is adopted or any coin moves
+  -- CreateFunToken first deducts its fee in the gas token through the bank wrapper (mirrored into whatever StateDB is
+  -- designated), then adopts / publishes a StateDB for the ERC20 metadata lookup and clears the pointer when it returns
+  | "simulate-createft-bad" | "simulate-createft-erc20" =>
+    [.bankAdd 6 (-q), .bankAdd 8 q, .bankAdd 8 (-q), .useOrPublish, .clear]
+  | _ => []
+
+/-- the simulation that is in flight when the block's transaction starts: an Ethereum tx that reaches the yield point after
+    adopting / publishing a StateDB -/
+def inFlightSimulation : List Step := [.useOrPublish, .evmAdd 7 1, .bankAdd 6 (-2), .bankAdd 4 2, .commit, .clear]
+
+def accountsWatched : List Nat := [0, 1, 2, 3, 4, 5, 6, 7, 8, 9]
+
+def predict (yield kind : String) (q : Int) : String :=
+  let (qs, sched) : List Step × List Bool :=
+    match yield with
+    | "between-txs" => (queryProgram kind q, List.replicate 8 false)
+    | "in-tx-before-bank-op" => (queryProgram kind q, [true, true] ++ List.replicate 8 false)
+    | "in-tx-after-bank-op" => (queryProgram kind q, [true, true, true, true] ++ List.replicate 8 false)
+    | "tx-starts-while-simulation-in-flight" => (inFlightSimulation, [false, false] ++ List.replicate 8 true)
+    | _ => ([], [])
+  let w := run genesis blockTx qs sched
+  let w0 := runAlone genesis blockTx
+  if accountsWatched.all (fun a => w.storeT a == w0.storeT a) then "same" else "DIFFERS"
+
+def kvOf (args : List String) (key : String) : String :=
+  match args.find? (fun a => a.startsWith (key ++ "=")) with
+  | some a => (a.drop (key.length + 1)).toString
+  | none => ""
+
+def step (args : List String) : String :=
+  match args with
+  | "case" :: rest => predict (kvOf rest "yield") (kvOf rest "q") ((parseInt? (kvOf rest "qamt")).getD 1)
+  | _ => "bad-op"
+
 end Nibiru.Concurrency
